@@ -239,6 +239,10 @@ def check(res):
                 continue
             if r["cert"]:
                 cstat["certified"] += 1
+            elif not compiled:
+                # the output does not compile: the loud outcome C10 asks for, whatever the condition looks like; the model's
+                # prediction of a text that the compiler rejects is not an obligation of this property
+                cstat["model_differs_on_noncompiling_output"] = cstat.get("model_differs_on_noncompiling_output", 0) + 1
             elif not r["spec_violation"]:
                 res.violation(dict(base, kind="correspondence-break", correspondence="certificate cr_cert: emitted condition = cel_condition (Cel/Translate.v)",
                                    theorem="C10_translation_sound applies only to conditions equal to the model's", in_proved_fragment=r["fragment"],
